@@ -171,6 +171,16 @@ def run_linsolve(case, ctx, rng):
             A = Afull
         else:
             ctx.count("decoupled_then_coupled")
+            if rng.random() < 0.5:
+                # a prescribed value of 1e6 on the decoupled (constrained) dofs next to O(1) loads elsewhere: the coupled part of the
+                # right-hand side is 3e-7 ... 7e-5 of the whole and still has to be solved for
+                bsc = 10.0 ** rng.uniform(4.7, 5.9)      # (beyond ~3e6 the coupled part drops below the wrapper's own tolerance 1e-7)
+                b = np.array(b, copy=True)
+                b[idx, ...] = b[idx, ...] * bsc
+                ctx.count("rhs_dominated_by_decoupled_dofs")
+                # LinSolve's default wrapper accepts a relative residual of 1e-7 of the *whole* right-hand side without solving: that
+                # is its documented tolerance, so it is the accuracy that can be demanded here
+                tol = max(tol, 2e-7)
     A_st = matgen.to_storage(A, st)
     if st != "dense" and A is not Afull and rng.random() < 0.6:
         # what an assembly routine produces: the sparsity pattern of the full matrix with *explicit zeros* where the couplings vanish
@@ -314,6 +324,8 @@ def run_sc(case, ctx, rng):
         A, cond = matgen.make(rng, case["cls"] if not case["cls"].startswith("fe") else "spd", 6, cond=100.0), 100.0
         n = 6
     perm = rng.permutation(n)
+    if rng.random() < 0.25:
+        perm = np.arange(n)[::-1] if rng.random() < 0.5 else np.arange(n)      # contiguous index ranges (main dofs at one end)
     nm = int(rng.integers(1, n - 1))
     npre = 0 if case["part"] == "all" else int(rng.integers(0, n - nm - 1 + 1))
     nfree = n - nm - npre
@@ -327,7 +339,22 @@ def run_sc(case, ctx, rng):
         cf = np.linalg.cond(A[np.ix_(fi, fi)])
     st = case["storage"]
     sA = pym.Signal("A", matgen.to_storage(A, st))
-    m = pym.StaticCondensation(sA, pym.Signal("Ared"), main=mi, free=fi)
+    # dof sets in any index form numpy accepts for the same dofs: arrays, lists, negative indices (counted from the end), sorted ranges
+    def form(ix):
+        u = rng.random()
+        if u < 0.2:
+            return np.where(rng.random(ix.size) < 0.5, ix, ix - n) if rng.random() < 0.5 else ix - n
+        if u < 0.35:
+            return [int(v) for v in ix]
+        if u < 0.5:
+            return np.sort(ix) - n
+        return ix
+    mi_arg, fi_arg = form(mi), form(fi)
+    if isinstance(mi_arg, np.ndarray) and mi_arg.size and np.all(mi_arg < 0):
+        ctx.count("sc_negative_index_sets")
+    mi = np.asarray(mi_arg) % n        # the order given is the order of the condensed matrix
+    fi = np.asarray(fi_arg) % n
+    m = pym.StaticCondensation(sA, pym.Signal("Ared"), main=mi_arg, free=fi_arg)
     with warnings.catch_warnings():
         warnings.simplefilter("ignore")
         m.response()
